@@ -651,11 +651,27 @@ SIG_TO_STR = ("fn to_str < T : AsRef < [ u8 ] > > ( e : T ) -> Result < String ,
               "{ String :: from_utf8 ( e . as_ref ( ) . to_vec ( ) ) . map_err ( ParserError :: FromUtf8Error ) }")
 
 
+TRANSLATED_FNS = ["into_struct", "extend_struct", "build_struct", "count_children", "tag_optional_children", "parse_tag"]
+PIN_REST = ('use std :: collections :: HashMap ; use std :: io :: BufRead ; use quick_xml :: events :: { BytesStart , Event } ; '
+            'use quick_xml :: reader :: Reader ; use crate :: element :: Element ; use crate :: necessity :: Necessity ; '
+            'fn to_str < T : AsRef < [ u8 ] > > ( e : T ) -> Result < String , ParserError > { String :: from_utf8 ( e . as_ref ( ) . to_vec ( ) ) '
+            '. map_err ( ParserError :: FromUtf8Error ) } # [ derive ( Debug ) ] pub enum ParserError { QuickXmlError ( u64 , quick_xml :: Error ) , '
+            'FromUtf8Error ( std :: string :: FromUtf8Error ) , AttrError ( quick_xml :: events :: attributes :: AttrError ) , ParsingError ( String ) , } '
+            'impl std :: fmt :: Display for ParserError { fn fmt ( & self , f : & mut std :: fmt :: Formatter < \' _ > ) -> std :: fmt :: Result { '
+            'match self { Self :: QuickXmlError ( position , error ) => { write ! ( f , "Error at position {} : {:?}" , position , error ) } '
+            'Self :: FromUtf8Error ( e ) => { write ! ( f , "{}" , e ) } Self :: AttrError ( e ) => { write ! ( f , "{}" , e ) } '
+            'Self :: ParsingError ( e ) => { write ! ( f , "{}" , e ) } } } } impl std :: error :: Error for ParserError { } '
+            'pub <fn> pub <fn> <fn> <fn> <fn> <fn>')
+PIN_LIB = ('# [ macro_use ] extern crate log ; mod element ; mod necessity ; mod options ; mod parser ; pub use element :: Element ; '
+           'pub use necessity :: { merge_necessity , Necessity } ; pub use options :: { Options , SortBy } ; '
+           'pub use parser :: { extend_struct , into_struct , ParserError } ;')
+
+
 def indent(text, n=2):
     return "\n".join(" " * n + l for l in text.split("\n"))
 
 
-def generate(src):
+def generate(src, lib_src=None):
     m = re.search(r"#\[cfg\(test\)\]\s*mod\s+tests\b", src)
     if m:
         src = src[:m.start()]
@@ -664,6 +680,21 @@ def generate(src):
     i, j, k = find_fn(toks, "to_str")
     if " ".join(toks[i:k]) != SIG_TO_STR:
         raise Refuse("`to_str` is not the pinned conversion")
+    # everything of parser.rs outside the six translated function bodies is pinned token by token:
+    # the imports, to_str, the error type with its Display text, nothing else
+    spans = sorted(find_fn(toks, f)[0::2] for f in TRANSLATED_FNS)
+    rest, pos = [], 0
+    for a, b in spans:
+        rest += toks[pos:a] + ["<fn>"]
+        pos = b
+    rest += toks[pos:]
+    if " ".join(rest) != PIN_REST:
+        raise Refuse("src/parser.rs contains something beside the pinned imports, `to_str`, `ParserError` (with its "
+                     "Display text) and the six translated functions")
+    if lib_src is not None:
+        lm = re.search(r"#\[cfg\(test\)\]\s*mod\s+tests\b", lib_src)
+        if " ".join(tokenize(lib_src[:lm.start()] if lm else lib_src)) != PIN_LIB:
+            raise Refuse("src/lib.rs is not the pinned list of modules and re-exports")
     # only these functions may exist beside the ones translated elsewhere
     fns = [toks[x + 1] for x in range(len(toks) - 1) if toks[x] == "fn"]
     allowed = {"to_str", "fmt", "into_struct", "extend_struct", "build_struct", "count_children", "tag_optional_children", "parse_tag"}
